@@ -180,10 +180,22 @@ func c06Judge(c *mon.Ctx, cs *c06Case) {
 	tx := cs.Tx.BuildShared()
 	rec := &recDebugger{}
 	var libErr error
-	opts := []interpreter.ExecutionOptionFunc{
-		interpreter.WithTx(tx, cs.Idx, &bt.Output{Satoshis: cs.Sats, LockingScript: bscript.NewFromBytes(append([]byte{}, cs.Lock...))}),
-		interpreter.WithDebugger(rec),
+	// the ways a caller can hand over the spent output: complete with WithTx; its amount
+	// with WithTx and the scripts with WithScripts; or both
+	lockScript := bscript.NewFromBytes(append([]byte{}, cs.Lock...))
+	var opts []interpreter.ExecutionOptionFunc
+	switch (len(unlock) + 3*len(cs.Lock) + cs.Idx) % 5 {
+	case 1:
+		opts = append(opts, interpreter.WithTx(tx, cs.Idx, &bt.Output{Satoshis: cs.Sats}), interpreter.WithScripts(lockScript, tx.Inputs[cs.Idx].UnlockingScript))
+		c.Count("C06:context:amount-with-WithTx,scripts-with-WithScripts")
+	case 2:
+		opts = append(opts, interpreter.WithTx(tx, cs.Idx, &bt.Output{Satoshis: cs.Sats, LockingScript: lockScript}), interpreter.WithScripts(lockScript, tx.Inputs[cs.Idx].UnlockingScript))
+		c.Count("C06:context:WithTx+WithScripts")
+	default:
+		opts = append(opts, interpreter.WithTx(tx, cs.Idx, &bt.Output{Satoshis: cs.Sats, LockingScript: lockScript}))
+		c.Count("C06:context:WithTx")
 	}
+	opts = append(opts, interpreter.WithDebugger(rec))
 	// the flag set reaches the engine through WithFlags and/or the convenience options, in varying order
 	opts = append(opts, flagOptions(cs.Flags, len(unlock)+3*len(cs.Lock)+cs.Idx)...)
 	if !c.Try("interpreter.Engine.Execute", func() { libErr = theEngine(c).Execute(opts...) }) {
@@ -601,6 +613,9 @@ func init() {
 									}
 									if scriptflag.Flag(fl)&scriptflag.UTXOAfterGenesis != 0 && r.Chance(1, 4) {
 										sp.LockTail = prng.Pick(r, [][]byte{{0x6a}, {0x6a, 0x42}, {0x6a, 0x01}, {0x6a, 0x01, 0x42}, {0x6a, 0xac, 0x4c}, {0x6a, 0x05, 0x01, 0x02}, {0x6a, 0x51, 0x52, 0x53, 0x54}})
+									}
+									if sp.LockTail == nil && k%3 == 1 { // data pushes in a wider form than necessary behind the check: the script code is hashed as it is written
+										sp.LockTail = [][]byte{{0x4c, 0x01, 0x07, 0x75}, {0x4d, 0x02, 0x00, 0xaa, 0xbb, 0x75}, {0x4e, 0x01, 0x00, 0x00, 0x00, 0x09, 0x75}, {0x4c, 0x00, 0x75}, {0x01, 0x05, 0x75}, {0x4c, 0x03, 0x01, 0x02, 0x03, 0x4d, 0x01, 0x00, 0x51, 0x6d}}[(k/3+sepPos+7)%6]
 									}
 									sp.Slots = []c06Slot{slot(r, 0, cl, fork)}
 									if r.Chance(1, 4) && scriptflag.Flag(fl)&scriptflag.VerifySigPushOnly == 0 { // a signature check inside the unlocking script as well
